@@ -174,3 +174,163 @@ Lemma cat_res_ok : forall pn fl m (r : res (list bytes * bytes)),
 Proof.
   intros pn fl m r Hr. unfold cat_res. apply ok_bind; [exact Hr|]. intros l rest Hrest. exact Hrest.
 Qed.
+
+(* ---------- the three codec bodies, with abstract handlers ---------- *)
+Lemma no_dyn_safe : forall {A} pn fl n, safe pn fl n (@no_dyn A).
+Proof. intros A pn fl n bs Hbs. unfold no_dyn. cbn [outcome_ok]. lia. Qed.
+
+Section Bodies.
+  Variable c : wcfg.
+  Variables pn fl : bool.
+  Variable n : nat.
+
+  Lemma string_reader_safe : safe pn fl n (string_reader c).
+  Proof.
+    intros bs Hbs. unfold string_reader. pose proof (read_str_ok_len pn fl bs) as H.
+    destruct (read_str bs) as [[s r]|l| |]; cbn [outcome_ok] in H |- *; try exact H.
+    destruct (string_reader_drops_err c); cbn [outcome_ok]; exact H.
+  Qed.
+
+  Lemma take_n_safe : forall w, safe pn fl n (take_n w).
+  Proof. intros w bs Hbs. apply take_n_ok_len. Qed.
+
+  Lemma num_safe : forall {B} w (g : N -> B), safe pn fl n (fun bs => do '(x, r) <- read_num w bs; ROk (g x, r)).
+  Proof.
+    intros B w g bs Hbs. apply ok_bind; [apply read_num_ok_len|]. intros x r Hr. exact Hr.
+  Qed.
+
+  Lemma here_safe : forall {B} (v : B), safe pn fl n (fun bs => ROk (v, bs)).
+  Proof. intros B v bs Hbs. cbn [outcome_ok]. lia. Qed.
+
+  Lemma err_safe : forall {B}, safe pn fl n (fun bs => @RErr (B * bytes) bs).
+  Proof. intros B bs Hbs. cbn [outcome_ok]. lia. Qed.
+
+  Section Sig.
+    Variable dyn obj : bytes -> res (bytes * bytes).
+    Hypothesis Hdyn : safe pn fl n dyn.
+    Hypothesis Hobj : safe pn fl n obj.
+
+    Lemma sig_body_safe : forall t, safe pn fl n (sig_body c dyn obj t).
+    Proof.
+      induction t as [s|t' IH|tk tv IHk IHv|ts IH|nm fs IH] using ty_ind2.
+      - destruct s; cbn [sig_body scalar_width];
+          try apply take_n_safe; try apply string_reader_safe; try exact Hdyn; try exact Hobj;
+          try apply here_safe; apply err_safe.
+      - intros bs Hbs. cbn [sig_body]. apply ok_bind; [apply read_num_ok_len|].
+        intros k r Hr. cbv beta iota. apply ok_bind.
+        + apply cat_res_ok. apply (outcome_ok_le pn fl (List.length r)); [exact Hr|].
+          refine (rep_safe pn fl n _ k IH r _). lia.
+        + intros d r' Hr'. exact Hr'.
+      - intros bs Hbs. cbn [sig_body]. apply ok_bind; [apply read_num_ok_len|].
+        intros k r Hr. cbv beta iota. apply ok_bind.
+        + apply cat_res_ok. apply (outcome_ok_le pn fl (List.length r)); [exact Hr|].
+          refine (rep_safe pn fl n _ k _ r _); [|lia].
+          apply (map_safe pn fl n (pair_with (sig_body c dyn obj tk) (sig_body c dyn obj tv))
+                   (fun kv _ => fst kv ++ snd kv)).
+          apply pair_with_safe; assumption.
+        + intros d r' Hr'. exact Hr'.
+      - intros bs Hbs. cbn [sig_body]. apply cat_res_ok.
+        refine (seq_with_safe pn fl n _ _ bs Hbs). apply Forall_map. exact IH.
+      - intros bs Hbs. cbn [sig_body]. apply cat_res_ok.
+        refine (seq_with_safe pn fl n _ _ bs Hbs). apply Forall_map. exact IH.
+    Qed.
+  End Sig.
+
+  Section Spec.
+    Variable dyn obj : bytes -> res (tval * bytes).
+    Hypothesis Hdyn : safe pn fl n dyn.
+    Hypothesis Hobj : safe pn fl n obj.
+
+    Lemma spec_body_safe : forall t, safe pn fl n (spec_body dyn obj t).
+    Proof.
+      induction t as [s|t' IH|tk tv IHk IHv|ts IH|nm fs IH] using ty_ind2.
+      - destruct s; cbn [spec_body scalar_width];
+          try apply num_safe; try exact Hdyn; try exact Hobj; try apply here_safe; try apply err_safe.
+        intros bs Hbs. apply ok_bind; [apply read_str_ok_len|]. intros x r Hr. exact Hr.
+      - intros bs Hbs. cbn [spec_body]. apply ok_bind; [apply read_num_ok_len|].
+        intros k r Hr. cbv beta iota. apply ok_bind.
+        + apply (outcome_ok_le pn fl (List.length r)); [exact Hr|].
+          refine (rep_safe pn fl n _ k IH r _). lia.
+        + intros d r' Hr'. exact Hr'.
+      - intros bs Hbs. cbn [spec_body]. apply ok_bind; [apply read_num_ok_len|].
+        intros k r Hr. cbv beta iota. apply ok_bind.
+        + apply (outcome_ok_le pn fl (List.length r)); [exact Hr|].
+          refine (rep_safe pn fl n _ k _ r _); [|lia]. apply pair_with_safe; assumption.
+        + intros d r' Hr'. exact Hr'.
+      - intros bs Hbs. cbn [spec_body]. apply ok_bind.
+        + refine (seq_with_safe pn fl n _ _ bs Hbs). apply Forall_map. exact IH.
+        + intros d r' Hr'. exact Hr'.
+      - intros bs Hbs. cbn [spec_body]. apply ok_bind.
+        + refine (seq_with_safe pn fl n _ _ bs Hbs). apply Forall_map. exact IH.
+        + intros d r' Hr'. exact Hr'.
+    Qed.
+  End Spec.
+End Bodies.
+
+Section Refl.
+  Variable c : wcfg.
+  Variable eqb : tval -> tval -> bool.
+  Variables pn fl : bool.
+  Variable n : nat.
+  (* the only panic of the model: a negative list length reaching SetLen *)
+  Hypothesis Hneg : refl_neg_len_panics c = false \/ pn = true.
+
+  Lemma fields_with_safe : forall (ps : list ((bytes -> res (tval * bytes)) * tval)),
+    Forall (fun pz => safe pn fl n (fst pz)) ps -> safe pn fl n (fields_with c ps).
+  Proof.
+    intros ps HF. induction HF as [|[p z] ps' Hp HF' IH]; intros bs Hbs; cbn [fields_with].
+    - cbn [outcome_ok]. lia.
+    - cbn [fst] in Hp. pose proof (Hp bs Hbs) as Hx.
+      destruct (p bs) as [[x r]|l| |]; cbn [outcome_ok] in Hx |- *; try exact Hx.
+      + assert (Hr : List.length r <= n) by lia.
+        pose proof (IH r Hr) as Hxs.
+        destruct (fields_with c ps' r) as [[xs r']|l| |]; cbn [outcome_ok] in Hxs |- *; try exact Hxs; lia.
+      + destruct (refl_struct_ignores_err c); [|cbn [outcome_ok]; exact Hx].
+        assert (Hl : List.length l <= n) by lia.
+        pose proof (IH l Hl) as Hxs.
+        destruct (fields_with c ps' l) as [[xs r']|l'| |]; cbn [outcome_ok] in Hxs |- *; try exact Hxs; lia.
+  Qed.
+
+  Section Body.
+    Variable obj : bytes -> res (tval * bytes).
+    Hypothesis Hobj : safe pn fl n obj.
+
+    Lemma refl_body_safe : forall t, safe pn fl n (refl_body c eqb obj t).
+    Proof.
+      induction t as [s|t' IH|tk tv IHk IHv|ts IH|nm fs IH] using ty_ind2.
+      - destruct s; cbn [refl_body scalar_width];
+          try (destruct (refl_drop8 c)); try apply num_safe; try exact Hobj;
+          try apply here_safe; try apply err_safe.
+        all: intros bs Hbs; (apply ok_bind; [apply read_str_ok_len|]); intros x r Hr; exact Hr.
+      - intros bs Hbs. cbn [refl_body]. apply ok_bind; [apply read_num_ok_len|].
+        intros k r Hr. cbv beta iota zeta.
+        destruct (Z.of_N listValueMaxSize <? as_int32 k)%Z; [exact Hr|].
+        destruct (as_int32 k <? 0)%Z.
+        + destruct (refl_neg_len_panics c); [|exact Hr].
+          cbn [outcome_ok]. destruct Hneg as [Hc|Hp]; [discriminate|exact Hp].
+        + apply ok_bind.
+          * apply (outcome_ok_le pn fl (List.length r)); [exact Hr|].
+            refine (rep_safe pn fl n _ k IH r _). lia.
+          * intros d r' Hr'. exact Hr'.
+      - intros bs Hbs. cbn [refl_body]. apply ok_bind; [apply read_num_ok_len|].
+        intros k r Hr. cbv beta iota zeta.
+        destruct (Z.of_N listValueMaxSize <? as_int32 k)%Z; [exact Hr|].
+        destruct (as_int32 k <? 0)%Z; [exact Hr|].
+        apply ok_bind.
+        + apply (outcome_ok_le pn fl (List.length r)); [exact Hr|].
+          refine (rep_safe pn fl n _ k _ r _); [|lia]. apply pair_with_safe; assumption.
+        + intros d r' Hr'. exact Hr'.
+      - intros bs Hbs. cbn [refl_body]. apply ok_bind.
+        + refine (fields_with_safe _ _ bs Hbs). apply Forall_map. exact IH.
+        + intros d r' Hr'. exact Hr'.
+      - intros bs Hbs. cbn [refl_body]. apply ok_bind.
+        + refine (fields_with_safe _ _ bs Hbs). apply Forall_map. exact IH.
+        + intros d r' Hr'. exact Hr'.
+    Qed.
+  End Body.
+
+  Lemma refl_dec_safe : forall t, safe pn fl n (refl_dec c eqb t).
+  Proof.
+    intro t. unfold refl_dec. apply refl_body_safe. apply refl_body_safe. apply no_dyn_safe.
+  Qed.
+End Refl.
